@@ -220,10 +220,7 @@ pub fn connected_count_unverified(clients: &Box<[Option<Connection>]>) -> (r: us
 impl PrivateConnectToken {
 //@stub renetcode/src/token.rs PrivateConnectToken::decode
 //@ret r
-//@spec
-        // ASSUMED (cryptography): opening the sealed private token succeeds only for the token sealed under this key, protocol id and expiry
-        // (`token_authentic`, uninterpreted); what it returns is that token's content
-        ensures r is Ok ==> token_authentic(*buffer, protocol_id, expire_timestamp, *xnonce, *private_key),
+//@specfile contracts/shared/PrivateConnectToken.decode.spec
 //@endfn
 }
 impl<'a> Packet<'a> {
